@@ -21,7 +21,9 @@ package snapstate_test
 //
 // Engines:
 //
-//	dynamic  app-snap histories (install, refresh to new/kept revisions, reverts) run
+//	dynamic  app-snap histories (install, refresh to new/kept revisions through the store,
+//	         refresh from a LOCAL FILE via snapstate.InstallPath - asserted revision or
+//	         unasserted x-revision, an unpacked snap directory as container -, reverts) run
 //	         through the real entry points and settled, with refresh.retain re-written
 //	         between operations (unset / JSON number / legacy string; classic and core
 //	         defaults); K0/K1 are the recorded sequences, cross-checked against the world
@@ -44,6 +46,7 @@ import (
 	"encoding/json"
 	"fmt"
 	"os"
+	"path/filepath"
 	"sort"
 	"strings"
 	"testing"
@@ -329,8 +332,11 @@ func c12Classes(x c12Refresh, settingChanged bool) []string {
 // ---------------------------------------------------------------- engine: dynamic
 
 type c12Step struct {
+	// Req.Op "install-path" (not a world op): refresh from a local file, as
+	// `snap install ./foo_N.snap` over the installed snap does; Req.Rev as for "refresh"
 	Req    worldReq   `json:"req"`
 	Retain *c12Retain `json:"retain,omitempty"` // Req.Op == "set-retain"
+	Local  bool       `json:"local,omitempty"`  // install-path: no revision given (unasserted file => next x-revision)
 }
 
 type c12DynCase struct {
@@ -348,6 +354,7 @@ func c12GenDyn(t *rapid.T) c12DynCase {
 	n := rapid.IntRange(5, verifkit.Size(12, 18)).Draw(t, "nsteps")
 	for i := 0; i < n; i++ {
 		kind := rapid.SampledFrom([]string{"refresh", "refresh", "refresh", "refresh", "refresh", "refresh-kept", "refresh-kept",
+			"install-path", "install-path", "install-path",
 			"revert", "revert", "revert-to", "set-retain", "set-retain", "set-retain"}).Draw(t, "kind")
 		// shape: often a larger setting first (revisions pile up) and a small one half way
 		// (more kept than the setting allows)
@@ -366,6 +373,11 @@ func c12GenDyn(t *rapid.T) c12DynCase {
 				st.Req.Rev = rapid.IntRange(1, 14).Draw(t, "rev")
 			}
 			st.Req.ByRev = rapid.IntRange(0, 3).Draw(t, "byrev") == 0
+		case "install-path":
+			if rapid.IntRange(0, 3).Draw(t, "anyrev") == 0 {
+				st.Req.Rev = rapid.IntRange(1, 14).Draw(t, "rev")
+			}
+			st.Local = rapid.IntRange(0, 4).Draw(t, "local") == 0
 		case "refresh-kept", "revert-to":
 			st.Req.Pick = rapid.IntRange(0, 7).Draw(t, "pick")
 			st.Req.NotBlocked = kind == "revert-to" && rapid.Bool().Draw(t, "notblocked")
@@ -381,6 +393,47 @@ func c12GenDyn(t *rapid.T) c12DynCase {
 		cs.Steps = append(cs.Steps, st)
 	}
 	return cs
+}
+
+// c12InstallPath requests a refresh of the installed snap from a local file, the way
+// the daemon's sideload handler does (snapstate.InstallPath, then NewChange+AddAll).
+// The "file" is an unpacked snap directory (no mksquashfs here).  rev 0: no revision
+// given, snapd assigns the next local (x) revision.
+func c12InstallPath(w *world, instance string, rev int) (*state.Change, error) {
+	dir, err := os.MkdirTemp("", "verif-c12-snapdir-")
+	if err != nil {
+		panic(fmt.Sprintf("HARNESS: %v", err))
+	}
+	if err := os.Chmod(dir, 0755); err != nil {
+		panic(fmt.Sprintf("HARNESS: %v", err))
+	}
+	if err := os.MkdirAll(filepath.Join(dir, "meta"), 0755); err != nil {
+		panic(fmt.Sprintf("HARNESS: %v", err))
+	}
+	name := snap.InstanceSnap(instance)
+	yaml := fmt.Sprintf("name: %s\nversion: 1.0\n", name)
+	if name != "services-snap" {
+		// the fake backend presents the installed revisions of the other snaps with epoch 1*
+		yaml += "epoch: 1*\n"
+	}
+	if err := os.WriteFile(filepath.Join(dir, "meta", "snap.yaml"), []byte(yaml), 0644); err != nil {
+		panic(fmt.Sprintf("HARNESS: %v", err))
+	}
+	si := &snap.SideInfo{RealName: name}
+	if rev != 0 {
+		si.SnapID = worldSnapID(instance)
+		si.Revision = snap.R(rev)
+	}
+	st := w.state
+	st.Lock()
+	defer st.Unlock()
+	ts, _, err := snapstate.InstallPath(st, si, dir, instance, "", snapstate.Flags{}, nil)
+	if err != nil {
+		return nil, err
+	}
+	chg := st.NewChange("install-snap", fmt.Sprintf("verif: install %s from a file", instance))
+	chg.AddAll(ts)
+	return chg, nil
 }
 
 func c12RunDyn(c *check.C, cs c12DynCase) (verifkit.Outcome, error) {
@@ -413,16 +466,48 @@ func c12RunDyn(c *check.C, cs c12DynCase) (verifkit.Outcome, error) {
 			trail = append(trail, "retain="+cfg.String())
 			continue
 		}
-		rr, ok := w.resolve(req)
-		if !ok {
-			o.Extra["inapplicable_steps"]++
-			continue
-		}
+		var rr worldReq
+		var chg *state.Change
+		var err error
 		before := w.view(cs.Snap)
-		chg, err := w.request(rr)
+		if req.Op == "install-path" {
+			if !before.Present || !before.Active {
+				o.Extra["inapplicable_steps"]++
+				continue
+			}
+			rr = req
+			if rr.Rev <= 0 || rr.Rev == before.Current {
+				rr.Rev = worldMax(before.Seq, 0) + 1
+			}
+			if step.Local {
+				rr.Rev = 0
+			}
+			chg, err = c12InstallPath(w, cs.Snap, rr.Rev)
+			if step.Local {
+				// an unasserted file gets the next local revision: x1, x2, ... (-1, -2, ...)
+				lowest := 0
+				for _, k := range before.Seq {
+					if k < lowest {
+						lowest = k
+					}
+				}
+				rr.Rev = lowest - 1
+			}
+		} else {
+			var ok bool
+			rr, ok = w.resolve(req)
+			if !ok {
+				o.Extra["inapplicable_steps"]++
+				continue
+			}
+			chg, err = w.request(rr)
+		}
 		if err != nil {
 			o.Extra["refused_steps"]++
 			trail = append(trail, fmt.Sprintf("%s refused", rr.Op))
+			if os.Getenv("VERIF_DEBUG") != "" {
+				fmt.Printf("DEBUG %s refused: %v\n", rr, err)
+			}
 			continue
 		}
 		if err := w.run(); err != nil {
@@ -437,7 +522,7 @@ func c12RunDyn(c *check.C, cs c12DynCase) (verifkit.Outcome, error) {
 			return o, verifkit.Violatef("C12: after step %d %s the recorded kept revisions and the system disagree: %s\n  before %s\n  after  %s",
 				i, rr, strings.Join(p, "; "), before, after)
 		}
-		if rr.Op != "refresh" && rr.Op != "refresh-kept" {
+		if rr.Op != "refresh" && rr.Op != "refresh-kept" && rr.Op != "install-path" {
 			trail = append(trail, fmt.Sprintf("%s->%v@%d", rr.Op, after.Seq, after.Current))
 			continue
 		}
@@ -459,6 +544,19 @@ func c12RunDyn(c *check.C, cs c12DynCase) (verifkit.Outcome, error) {
 		if cfg.Kind == "str" {
 			classes["string-setting"] = true
 		}
+		if rr.Op == "install-path" {
+			classes["path-refresh"] = true
+			if rr.Rev < 0 {
+				classes["path-refresh-local-revision"] = true
+			}
+			if c12Index(before.Seq, before.Current)+1 >= r {
+				classes["path-refresh-gc-must-act"] = true
+			}
+			if !worldContains(before.Seq, rr.Rev) {
+				classes["path-refresh-new-revision"] = true
+			}
+			o.Extra["path_refreshes_judged"]++
+		}
 		if cfg.Kind == "unset" && !cs.Classic {
 			classes["core-default"] = true
 		}
@@ -467,7 +565,11 @@ func c12RunDyn(c *check.C, cs c12DynCase) (verifkit.Outcome, error) {
 		}
 		prevR = r
 		o.Extra["refreshes_judged"]++
-		trail = append(trail, fmt.Sprintf("refresh(%d,r=%d):%v@%d->%v", rr.Rev, r, before.Seq, before.Current, after.Seq))
+		what := "refresh"
+		if rr.Op == "install-path" {
+			what = "path"
+		}
+		trail = append(trail, fmt.Sprintf("%s(%d,r=%d):%v@%d->%v", what, rr.Rev, r, before.Seq, before.Current, after.Seq))
 	}
 	for cl := range classes {
 		o.Labels = append(o.Labels, cl)
@@ -485,7 +587,8 @@ func TestVerifC12Dynamic(t *testing.T) {
 			Gen: c12GenDyn,
 			Run: func(cs c12DynCase) (verifkit.Outcome, error) { return c12RunDyn(c, cs) },
 			Floors: map[string]float64{"gc-must-act": 0.20, "current-not-last": 0.20, "setting-changed": 0.20,
-				"target-kept": 0.20, "string-setting": 0.15, "target-before-current": 0.05, "more-than-retain-before": 0.03},
+				"target-kept": 0.20, "string-setting": 0.15, "target-before-current": 0.05, "more-than-retain-before": 0.03,
+				"path-refresh": 0.40, "path-refresh-gc-must-act": 0.20, "path-refresh-new-revision": 0.35, "path-refresh-local-revision": 0.05},
 			NonTrivialFloor: 0.6,
 		})
 	})
